@@ -150,6 +150,16 @@ Theorem C15_no_duplicate_injection_run_reorg : forall fx sched st,
   forall g, In g (injections (run_r (tick_with fx) st sched)) -> ~ In g (snd st).
 Proof. exact no_duplicate_injection_run_reorg. Qed.
 
+(* progress on a changing history: at any tick at which the oracle samples, nothing fails, the syncer has reached the sampled block
+   and the history canonical at that tick has a root at or below it, that root is on L2 after the tick - whatever reorgs happened
+   before *)
+Theorem C15_progress_when_caught_up_run_reorg : forall fx pre h i l2 g,
+  sorted_hist h -> fst (final_r (tick_with fx) (0, l2) pre) = 0 ->
+  errfree i -> i_F i <> 0 -> i_F i <= i_lpb i -> ref_latest h (i_F i) = Some g ->
+  let st' := final_r (tick_with fx) (0, l2) (pre ++ [(h, i)]) in
+  fst st' = 0 /\ In g (snd st').
+Proof. exact progress_when_caught_up_run_reorg. Qed.
+
 (* the runs over a changing history contain the runs over a fixed one *)
 Theorem C15_reorg_runs_generalise : forall tk hist sched st,
   run_r tk st (map (fun i => (hist, i)) sched) = run tk hist st sched.
@@ -262,6 +272,14 @@ Example C15_ex_generated_tick :
   fst (GenAgreeOracle.gen_tick_refusing d (0, 0, EFail) 104 0) = EOK.
 Proof. repeat split; vm_compute; reflexivity. Qed.
 
+(* hypotheses of C15_progress_when_caught_up_run_reorg met by the second tick of the schedule of C15_ex_reorg (after the reorg) *)
+Example C15_ex_reorg_progress :
+  let pool := [(2, 102); (9, 109); (10, 209)] in
+  let pre := [(sel pool [0; 1]%nat, ex_tin 5 20)] in let h := sel pool [0; 2]%nat in let i := ex_tin 12 20 in
+  fst (final_r tick_fixed (0, []) pre) = 0 /\ errfree i /\ i_F i <> 0 /\ i_F i <= i_lpb i /\ ref_latest h (i_F i) = Some 209 /\
+  final_r tick_fixed (0, []) (pre ++ [(h, i)]) = (0, [209; 102]).
+Proof. cbv zeta. repeat split; try (vm_compute; reflexivity); vm_compute; congruence. Qed.
+
 (* a failing dependency: hypotheses of C15_errors_inject_nothing met, and the tick indeed reports the failure *)
 Example C15_ex_error :
   let d := mkdeps ex_hist [] {| i_F := 5; i_l1err := false; i_lpb := 20; i_infoerr := true; i_l2add := [];
@@ -289,3 +307,4 @@ Print Assumptions C15_reorg_runs_generalise.
 Print Assumptions C15_sel_all.
 Print Assumptions C15_generated_tick_is_model.
 Print Assumptions C15_generated_tick_consults_inject.
+Print Assumptions C15_progress_when_caught_up_run_reorg.
